@@ -19,14 +19,14 @@ type field struct {
 	freqs index.TokenFrequencies
 }
 
-func (f *field) Name() string                          { return f.name }
-func (f *field) Value() []byte                         { return f.value }
-func (f *field) ArrayPositions() []uint64              { return f.ap }
-func (f *field) EncodedFieldType() byte                { return f.typ }
-func (f *field) Analyze()                              {}
-func (f *field) Options() index.FieldIndexingOptions   { return f.opts }
-func (f *field) AnalyzedLength() int                   { return f.alen }
-func (f *field) NumPlainTextBytes() uint64             { return 0 }
+func (f *field) Name() string                                { return f.name }
+func (f *field) Value() []byte                               { return f.value }
+func (f *field) ArrayPositions() []uint64                    { return f.ap }
+func (f *field) EncodedFieldType() byte                      { return f.typ }
+func (f *field) Analyze()                                    {}
+func (f *field) Options() index.FieldIndexingOptions         { return f.opts }
+func (f *field) AnalyzedLength() int                         { return f.alen }
+func (f *field) NumPlainTextBytes() uint64                   { return 0 }
 func (f *field) Compose(string, int, index.TokenFrequencies) {}
 
 // AnalyzedTokenFrequencies returns the same map on every call, as bleve's
@@ -158,14 +158,18 @@ func mkField(fi *model.FieldInst) *field {
 	return f
 }
 
-func idField(id string) *field {
+func idField(id string, dv bool) *field {
 	tf := &index.TokenFreq{Term: []byte(id)}
 	tf.SetFrequency(1)
+	opts := index.IndexField | index.StoreField
+	if dv {
+		opts |= index.DocValues
+	}
 	return &field{
 		name:  "_id",
 		typ:   't',
 		value: []byte(id),
-		opts:  index.IndexField | index.StoreField,
+		opts:  opts,
 		alen:  1,
 		freqs: index.TokenFrequencies{id: tf},
 	}
@@ -178,7 +182,7 @@ func Docs(b *model.Batch) []index.Document {
 		d := &b.Docs[i]
 		sd := doc{id: d.ID}
 		if !d.IDLast {
-			sd.fields = append(sd.fields, idField(d.ID))
+			sd.fields = append(sd.fields, idField(d.ID, d.IDDV))
 		}
 		for j := range d.Composite {
 			sd.composite = append(sd.composite, mkField(&d.Composite[j]))
@@ -194,7 +198,7 @@ func Docs(b *model.Batch) []index.Document {
 				dims: vf.Dims, metric: vf.Metric, opt: vf.Opt})
 		}
 		if d.IDLast {
-			sd.fields = append(sd.fields, idField(d.ID))
+			sd.fields = append(sd.fields, idField(d.ID, d.IDDV))
 		}
 		if len(d.Syn) > 0 {
 			rv = append(rv, &synDoc{sd})
